@@ -315,6 +315,10 @@ def super_fallback(engine, run, sup, attr):
     # list subclasses: super() is `list`
     if hasattr(obj, "list_super"):
         return obj.list_super(run, attr)
+    ocls = obj.cls if isinstance(obj, (SObj, SClassRef)) else None
+    if ocls is not None and any(b in ("TrackerBase",) for c in ocls.mro() for b in c.bases):
+        run.trust(f"A-PDE: TrackerBase.{attr} (base class method of py-pde) neither raises nor touches the tracker's own attributes")
+        return SNative(lambda run, a, k: None, f"TrackerBase.{attr}")
     raise Undecided(f"super().{attr} outside the analysed classes")
 
 
